@@ -1204,13 +1204,19 @@ class Transaction(dns.transaction.Transaction):
         if self.read_only:
             self.zone._end_read(self)  # pyright: ignore
         elif commit and len(cast(WritableVersion, self.version).changed) > 0:
-            if self.make_immutable:
-                factory = self.manager.immutable_version_factory  # type: ignore
-                if factory is None:
-                    factory = ImmutableVersion
-                version = factory(self.version)
-            else:
-                version = self.version
+            try:
+                if self.make_immutable:
+                    factory = self.manager.immutable_version_factory  # type: ignore
+                    if factory is None:
+                        factory = ImmutableVersion
+                    version = factory(self.version)
+                else:
+                    version = self.version
+            except BaseException:
+                # The commit failed before anything was published, so this is a
+                # rollback; in particular the zone must not stay write-locked.
+                self.zone._end_write(self)  # pyright: ignore
+                raise
             self.zone._commit_version(  # pyright: ignore
                 self, version, self.version.origin
             )
